@@ -369,3 +369,134 @@ func VerifC18FullSyncWindow(h *verifh.H) {
 	}
 	h.Observe("after", vJoinS(after))
 }
+
+// VerifC18DeepJoin: a dependency with a join path of three hops whose middle
+// hops run inside the main dataset over a predicate that may be
+// self-referential or cyclic, so that one entity can be reached on several
+// levels of the walk. Graph: d1 in D; m1, m2 in M, each with p1 ∈ {none, d1}
+// and p2 ∈ {none, m1, m2, [m1,m2]}; d1 itself may point at m1 with p1. Every
+// hop is followed outgoing or incoming (drawn per hop). After a change to d1
+// every main entity at the end of a three-hop walk from d1 — computed here by
+// walking the drawn graph level by level, keeping an entity on every level it
+// is reached on — is emitted.
+func VerifC18DeepJoin(h *verifh.H) {
+	hub := server.VerifNewHub(h)
+	M, _ := hub.Dsm.CreateDataset("M", nil)
+	D, _ := hub.Dsm.CreateDataset("D", nil)
+	mIDs := []string{"ns0:m1", "ns0:m2"}
+	// outgoing references of every entity: refs[id][pred] = targets
+	refs := map[string]map[string][]string{}
+	mk := func(id, tag string) *server.Entity {
+		e := server.NewEntity(id, 0)
+		e.Properties["ns0:tag"] = tag
+		for p, ts := range refs[id] {
+			if len(ts) == 1 {
+				e.References[p] = ts[0]
+			} else if len(ts) > 1 {
+				arr := make([]interface{}, len(ts))
+				for k, t := range ts {
+					arr[k] = t
+				}
+				e.References[p] = arr
+			}
+		}
+		return e
+	}
+	for _, m := range mIDs {
+		refs[m] = map[string][]string{}
+		if h.Choice("p1", 2) == 1 {
+			refs[m]["ns0:p1"] = []string{"ns0:d1"}
+		}
+		switch h.Choice("p2", 4) {
+		case 1:
+			refs[m]["ns0:p2"] = []string{"ns0:m1"}
+		case 2:
+			refs[m]["ns0:p2"] = []string{"ns0:m2"}
+		case 3:
+			refs[m]["ns0:p2"] = []string{"ns0:m1", "ns0:m2"}
+		}
+	}
+	refs["ns0:d1"] = map[string][]string{}
+	if h.Choice("d1p1", 2) == 1 {
+		refs["ns0:d1"]["ns0:p1"] = []string{"ns0:m1"}
+	}
+	h.Assert(M.StoreEntities([]*server.Entity{mk("ns0:m1", "m0"), mk("ns0:m2", "m0")}) == nil, "write M")
+	h.Assert(D.StoreEntities([]*server.Entity{mk("ns0:d1", "d0")}) == nil, "write D")
+	inv := []bool{h.Choice("inv0", 2) == 1, h.Choice("inv1", 2) == 1, h.Choice("inv2", 2) == 1}
+	preds := []string{"ns0:p1", "ns0:p2", "ns0:p2"}
+	ms := &source.MultiSource{DatasetName: "M", Store: hub.Store, DatasetManager: hub.Dsm, Logger: hub.Env.Logger}
+	ms.Dependencies = []source.Dependency{{Dataset: "D", Joins: []source.Join{
+		{Dataset: "M", Predicate: preds[0], Inverse: inv[0]},
+		{Dataset: "M", Predicate: preds[1], Inverse: inv[1]},
+		{Dataset: "M", Predicate: preds[2], Inverse: inv[2]},
+	}}}
+	sink := &vSink{failBatch: -1, failing: map[string]bool{}}
+	pl := &IncrementalPipeline{PipelineSpec{source: ms, sink: sink, batchSize: 1 + h.Choice("batchSize", 2)}}
+	j := &job{id: "ms-job", title: "ms-job", pipeline: pl, runner: vRunner(hub, 1, 1)}
+	runToFixpoint := func() []string {
+		sink.delivered = nil
+		last := ""
+		for r := 0; r < 7; r++ {
+			_, err := pl.sync(j, context.Background())
+			h.Assert(err == nil, "run succeeds")
+			st := &SyncJobState{}
+			_ = hub.Store.GetObject(server.JobDataIndex, "ms-job", st)
+			if st.ContinuationToken == last {
+				break
+			}
+			last = st.ContinuationToken
+		}
+		var ids []string
+		for _, e := range sink.delivered {
+			ids = append(ids, e.ID)
+		}
+		sort.Strings(ids)
+		return ids
+	}
+	_ = runToFixpoint()
+	// d1 changes (content only; its links stay)
+	h.Assert(D.StoreEntities([]*server.Entity{mk("ns0:d1", "d1")}) == nil, "change D")
+	emitted := runToFixpoint()
+	// oracle: walk the drawn graph level by level
+	all := []string{"ns0:d1", "ns0:m1", "ns0:m2"}
+	level := map[string]bool{"ns0:d1": true}
+	for k := 0; k < 3; k++ {
+		next := map[string]bool{}
+		for x := range level {
+			if inv[k] {
+				for _, y := range all {
+					if vContains(refs[y][preds[k]], x) {
+						next[y] = true
+					}
+				}
+			} else {
+				for _, y := range refs[x][preds[k]] {
+					next[y] = true
+				}
+			}
+		}
+		level = next
+	}
+	for m := range level {
+		if m == "ns0:d1" {
+			continue // not a main dataset entity
+		}
+		h.Assert(vContains(emitted, m), "a main entity at the end of the join path from the changed dependency entity is emitted :: inv="+vB3(inv)+" expected="+m+" emitted="+vJoinS(emitted))
+	}
+	for _, id := range emitted {
+		h.Assert(id == "ns0:m1" || id == "ns0:m2", "emitted entities come from the main dataset :: "+id)
+	}
+	h.Observe("emitted", vJoinS(emitted))
+}
+
+func vB3(b []bool) string {
+	s := ""
+	for _, x := range b {
+		if x {
+			s += "i"
+		} else {
+			s += "o"
+		}
+	}
+	return s
+}
